@@ -43,6 +43,8 @@ def run(tier, seed, args):
         ps += progs.c12_programs(seed + 2, "quick")
     ps += xml_end_sweep(v, wd, exe, seed, tier)
     ps += [p for p in progs.c10_programs(seed, tier) if p["name"].startswith(("finalize_", "abandon_", "two_visuals"))]
+    # strings over the XML character domain (C04's generator): the XML of every finalized file must be well-formed
+    ps += [dict(p, name="c02_" + p["name"]) for p in progs.c04_programs(seed, "quick") if p["name"].startswith("string") and not p.get("nonxml")]
     filecommon.run_programs(v, wd, exe, ps, "c02", focus=("C02",))
     v.add(states=v.cov.get("trace_events", 0), transitions=v.cov.get("trace_events", 0),
           rule="one case = one successful writer program from the C01 and C06 generators (section starts swept over residues mod 1020); the judge is the TLA+ decoder: whole pages, every page checksum (CRC-32C from the polynomial), header fields, XML well-formed/namespace, offsets outside checksum bytes on sections of the right kind, section/packet lengths and 4-byte alignment, decoded content = API inputs",
